@@ -247,10 +247,6 @@ func (c *channel) sendMsg(req request) (err error) {
 	verifMsg("msg.write", c, req.msg.Metadata.MessageID)
 	verifPoint("snd.beforeWrite", c)
 	err = c.gorumsStream.SendMsg(req.msg)
-	verifPoint("snd.afterWrite", c)
-	if err != nil {
-		verifMsg("msg.writeErr", c, req.msg.Metadata.MessageID)
-	}
 	if err != nil {
 		c.setLastErr(err)
 		c.streamBroken.set()
@@ -261,6 +257,10 @@ func (c *channel) sendMsg(req request) (err error) {
 	}
 
 	close(done)
+	verifPoint("snd.afterWrite", c)
+	if err != nil {
+		verifMsg("msg.writeErr", c, req.msg.Metadata.MessageID)
+	}
 
 	return err
 }
